@@ -674,7 +674,32 @@ impl KeyWorld {
                     twin_answer = Some(v2);
                 }
             }
-            let before_n = if ctx.collect_shapes { self.colls[ci].as_ref().unwrap().snapshot().map(|s| s.slots.len().saturating_sub(s.unused.len() + 1)) } else { None };
+            let before_snap = if ctx.collect_shapes { self.colls[ci].as_ref().unwrap().snapshot() } else { None };
+            let before_n = before_snap.as_ref().map(|s| s.slots.len().saturating_sub(s.unused.len() + 1));
+            if let Some(s) = before_snap.as_ref() {
+                // which removal path will the first lazy removal of this query take? (reach measure)
+                let mut i = s.root;
+                let mut guard = 0usize;
+                while (i as usize) < s.slots.len() && guard <= s.slots.len() {
+                    guard += 1;
+                    let nd = &s.slots[i as usize];
+                    if nd.aux <= t {
+                        ctx.stats.bump(key2("KeyExpTree.lazy_delete", snap::classify_delete(s, i)));
+                        break;
+                    }
+                    i = match nd.key.cmp(&qk) {
+                        Ordering::Less => nd.right,
+                        Ordering::Greater => nd.left,
+                        Ordering::Equal => {
+                            if callname == "first_less" {
+                                nd.left
+                            } else {
+                                break;
+                            }
+                        }
+                    };
+                }
+            }
             let pid = self.fresh_id();
             let probe = SimKey { key: qk, exp: pexp, id: pid };
             let panic_at = step.panic_at;
@@ -790,18 +815,14 @@ impl KeyWorld {
                 let (r, _) = call(ctx, &cfg, twin_name(name), "insert", "KIns", false, None, None, || tw.insert(key, val, t))?;
                 twin_ok = matches!(r, Called::Ok(_));
             }
-            if ctx.collect_shapes && cfg.has(O_STRUCT) {
+            if ctx.collect_shapes {
                 if let Some(s) = self.colls[ci].as_ref().unwrap().snapshot() {
-                    ctx.stats.bump(match snap::classify_insert(&s, k) {
-                        "root" => "insert.root",
-                        "black_parent" => "insert.black_parent",
-                        "case2_red_root_parent" => "insert.case2_red_root_parent",
-                        "case3_red_uncle" => "insert.case3_red_uncle",
-                        "case5a_outer_LL" => "insert.case5a_outer_LL",
-                        "case4a_inner_LR" => "insert.case4a_inner_LR",
-                        "case5b_outer_RR" => "insert.case5b_outer_RR",
-                        _ => "insert.case4b_inner_RL",
-                    });
+                    // the insertion first removes expired nodes on its path, so this is the
+                    // repair case only when nothing on the path is expired; count it as reach
+                    ctx.stats.bump(key2("KeyExpTree", key2("insert", snap::classify_insert(&s, k))));
+                    if s.unused.is_empty() {
+                        ctx.stats.bump("KeyExpTree.arena.growth_on_insert");
+                    }
                 }
             }
             let c = self.colls[ci].as_mut().unwrap();
